@@ -41,7 +41,7 @@ type ParamInfo struct {
 func newGen(ld *Loader, cs *ContractSet, fn *ssa.Function, c *Contract) *Gen {
 	g := &Gen{ld: ld, cs: cs, sorts: newSorts(), keys: map[string]KeyInfo{}, loopMods: map[string]map[string]bool{}, loopAll: map[string]bool{},
 		declared: map[string]bool{}, rootFn: fn, rootC: c, notes: map[string]bool{}, trusted: map[string]bool{}, globals: map[string]string{},
-		funcIDs: map[string]int{}, boxAx: map[string]bool{}, ufs: map[string]ufDecl{}, ordinals: map[string]int{}, obNames: map[string]int{}}
+		funcIDs: map[string]int{}, boxAx: map[string]bool{}, ufs: map[string]ufDecl{}, ordinals: map[string]int{}, obNames: map[string]int{}, allocKinds: map[string]bool{}}
 	g.regKey("$alloc", "Int", "alloc")
 	return g
 }
@@ -63,6 +63,7 @@ func verifyFunction(ld *Loader, cs *ContractSet, fn *ssa.Function, c *Contract) 
 	var prevInfo map[string]KeyInfo
 	var loopMods map[string]map[string]bool
 	var loopAll map[string]bool
+	allocKinds := map[string]bool{}
 	for pass := 1; pass <= 4; pass++ {
 		g = newGen(ld, cs, fn, c)
 		g.pass = pass
@@ -72,15 +73,29 @@ func verifyFunction(ld *Loader, cs *ContractSet, fn *ssa.Function, c *Contract) 
 				g.regKey(k, prevInfo[k].sort, prevInfo[k].kind)
 				ki := g.keys[k]
 				ki.ref = prevInfo[k].ref
+				ki.valT = prevInfo[k].valT
 				g.keys[k] = ki
 			}
 			g.loopMods = loopMods
 			g.loopAll = loopAll
+			for k := range allocKinds {
+				g.allocKinds[k] = true
+			}
 		}
 		nkeys := len(g.keyOrder)
 		g.registerAxioms()
 		runRoot(g, fn, c, u)
 		prevKeys, prevInfo = g.keyOrder, g.keys
+		grew := false
+		for k := range g.allocKinds {
+			if !allocKinds[k] {
+				allocKinds[k] = true
+				grew = true
+			}
+		}
+		if pass > 1 && grew {
+			continue
+		}
 		if pass > 1 && len(g.keyOrder) == nkeys {
 			break
 		}
@@ -183,6 +198,22 @@ func (fc *FnCtx) frameObligations(entry, exit *State, env *Env, c *Contract) {
 	g := fc.g
 	targets, all := env.resolveModifies(c.Modifies)
 	if all {
+		// modifies * except K...: the listed keys are what must be preserved
+		al0 := g.get(entry, "$alloc")
+		for _, t := range targets {
+			k := t.key
+			a, b := g.get(entry, k), g.get(exit, k)
+			if a == b {
+				continue
+			}
+			var goal string
+			if g.keys[k].kind == "ghost" {
+				goal = fmt.Sprintf("(= %s %s)", a, b)
+			} else {
+				goal = fmt.Sprintf("(forall ((|o| Int)) (=> (<= |o| %s) (= (select %s |o|) (select %s |o|))))", al0, b, a)
+			}
+			fc.oblige("frame", k, fc.fn.Pos(), goal, "modifies "+strings.Join(c.Modifies, ", "), "")
+		}
 		return
 	}
 	allowed := map[string][]string{}
